@@ -5,7 +5,7 @@ from pyvc.vals import to_int, ArrS, IntS, BoolS
 
 SecT = S.Rec('DebugSectionDescriptor', stream=S.Stream, name=S.Str, global_offset=S.Nat, size=S.Nat, address=S.Nat)
 CUHeaderT = S.Rec(unit_length=S.Nat, version=S.U16, debug_abbrev_offset=S.Nat, address_size=S.U8)
-StructsT = S.StructsT('DWARFStructs', little_endian=S.Bool, dwarf_format=S.Choice(32, 64), address_size=S.U8, dwarf_version=S.U16)
+StructsT = S.StructsT('DWARFStructs', little_endian=S.Bool, dwarf_format=S.Choice(32, 64), address_size=S.Choice(4, 8), dwarf_version=S.U16)  # DWARFStructs.__init__ asserts the address size
 CUT = S.Obj('CompileUnit', cu_offset=S.Nat, cu_die_offset=S.Nat, header=CUHeaderT, structs=StructsT)
 
 
